@@ -22,7 +22,7 @@ theorem nbaAssign_leaf (e : Expr) (hl : leafOk e = true) (y : Int) (p : Pending)
     | sig i w s =>
       rw [printE_slice_sig]
       by_cases hw1 : w = 1
-      · rw [if_pos hw1]; simp [nbaAssign]
+      · rw [if_pos hw1]; cases s <;> simp [nbaAssign, nbaConcatL, nbaLeaf]
       · rw [if_neg hw1]
         by_cases hgt : hi - lo > 1
         · rw [if_pos hgt]; simp [nbaAssign]
